@@ -902,3 +902,107 @@ Section FlatHistory.
   Qed.
 End FlatHistory.
 
+
+(** ** permuting the adds of tree frontends *)
+Section Permute.
+  Variable re_ok : bytes -> bool.
+  Variable re_match : bytes -> bytes -> bool.
+
+  (** a tree frontend the router accepts *)
+  Definition tree_front_ok (fr : frontend) : Prop :=
+    f_pos fr = Tree /\ good_key (f_host fr) /\
+    (exists p, parse_path re_ok (f_pkind fr) (f_pval fr) = Some p) /\
+    (exists d, parse_domain re_ok (f_host fr) = DOk d).
+
+  Definition tree_entry (fr : frontend) : option (prule * mrule * route) :=
+    match parse_path re_ok (f_pkind fr) (f_pval fr) with
+    | Some p => Some (p, f_method fr, mk_route fr)
+    | None => None
+    end.
+  Definition tree_ident (fr : frontend) : bytes * option prule * mrule :=
+    (f_host fr, parse_path re_ok (f_pkind fr) (f_pval fr), f_method fr).
+
+  Lemma same_leaf_iff p m e : same_leaf p m e = true <-> exists r, e = (p, m, r).
+  Proof.
+    destruct e as [[p' m'] r]. cbn [same_leaf]. rewrite andb_true_iff, prule_eqb_eq, mrule_eqb_eq.
+    split; [intros [-> ->]; eauto|intros (r0 & H); inversion H; auto].
+  Qed.
+
+  Lemma adds_members fs : forall S,
+      Forall tree_front_ok fs -> NoDup (map tree_ident fs) ->
+      (forall fr p e, In fr fs -> parse_path re_ok (f_pkind fr) (f_pval fr) = Some p ->
+                      In e (s_tree S (f_host fr)) -> same_leaf p (f_method fr) e = false) ->
+      let S' := fold_left (step_a re_ok) (map OAdd fs) S in
+      s_pre S' = s_pre S /\ s_post S' = s_post S /\
+      forall k e, In e (s_tree S' k) <->
+                  In e (s_tree S k) \/ exists fr, In fr fs /\ f_host fr = k /\ tree_entry fr = Some e.
+  Proof.
+    induction fs as [|fr fs IH]; intros S OK ND FRESH; cbn [map fold_left].
+    - repeat split; auto. intros [H|(fr & [] & _)]; exact H.
+    - inversion OK as [|? ? (EP & G & (p & PP) & (d & PD)) OK']; subst.
+      inversion ND as [|? ? NI ND']; subst.
+      assert (E1 : existsb (same_leaf p (f_method fr)) (s_tree S (f_host fr)) = false).
+      { destruct (existsb (same_leaf p (f_method fr)) (s_tree S (f_host fr))) eqn:E; [|reflexivity].
+        apply existsb_exists in E. destruct E as (e & Ie & Se).
+        rewrite (FRESH fr p e (or_introl eq_refl) PP Ie) in Se. discriminate. }
+      set (S1 := step_a re_ok S (OAdd fr)).
+      assert (ES1 : S1 = mkast (s_pre S) (upd (s_tree S) (f_host fr) (s_tree S (f_host fr) ++ [(p, f_method fr, mk_route fr)])) (s_post S)).
+      { unfold S1. cbn [step_a]. unfold a_add. rewrite PP, PD, EP. unfold a_add_tree. rewrite E1. reflexivity. }
+      specialize (IH S1 OK' ND').
+      assert (FRESH1 : forall fr' p' e, In fr' fs -> parse_path re_ok (f_pkind fr') (f_pval fr') = Some p' ->
+                                        In e (s_tree S1 (f_host fr')) -> same_leaf p' (f_method fr') e = false).
+      { intros fr' p' e I' PP' Ie. rewrite ES1 in Ie. cbn [s_tree] in Ie. unfold upd in Ie.
+        destruct (beq (f_host fr') (f_host fr)) eqn:EH.
+        - apply beq_eq in EH. apply in_app_or in Ie. destruct Ie as [Ie|[<-|[]]].
+          + rewrite <- EH in Ie. apply (FRESH fr' p' e (or_intror I') PP' Ie).
+          + destruct (same_leaf p' (f_method fr') (p, f_method fr, mk_route fr)) eqn:SL; [|reflexivity].
+            apply same_leaf_iff in SL. destruct SL as (r0 & H). inversion H; subst.
+            exfalso. apply NI. apply in_map_iff. exists fr'. split; [|exact I'].
+            unfold tree_ident. rewrite PP, PP', EH. congruence.
+        - apply (FRESH fr' p' e (or_intror I') PP' Ie). }
+      specialize (IH FRESH1). cbv zeta in IH. destruct IH as (P1 & P2 & M).
+      rewrite P1, P2. split; [rewrite ES1; reflexivity|]. split; [rewrite ES1; reflexivity|].
+      intros k e. rewrite M. rewrite ES1. cbn [s_tree]. unfold upd. split.
+      + intros [H|(fr' & I' & Hk & He)].
+        * destruct (beq k (f_host fr)) eqn:EH.
+          -- apply beq_eq in EH; subst k. apply in_app_or in H. destruct H as [H|[<-|[]]]; [left; exact H|].
+             right. exists fr. split; [left; reflexivity|]. split; [reflexivity|].
+             unfold tree_entry. rewrite PP. reflexivity.
+          -- left; exact H.
+        * right. exists fr'. split; [right; exact I'|]. split; assumption.
+      + intros [H|(fr' & [<-|I'] & Hk & He)].
+        * left. destruct (beq k (f_host fr)) eqn:EH; [|exact H].
+          apply beq_eq in EH; subst k. apply in_or_app; left; exact H.
+        * left. subst k. rewrite beq_refl. unfold tree_entry in He. rewrite PP in He. inversion He; subst.
+          apply in_or_app; right; left; reflexivity.
+        * right. exists fr'. split; [exact I'|]. split; assumption.
+  Qed.
+
+  Lemma plain_adds fs : Forall tree_front_ok fs -> plain_history (map OAdd fs).
+  Proof.
+    intros OK. unfold plain_history. rewrite Forall_map. eapply Forall_impl; [|exact OK].
+    intros fr (EP & G & _). cbn [op_front]. unfold plain_front. rewrite EP. exact G.
+  Qed.
+
+  Lemma permuted_adds_lemma fs fs' h path m :
+    Forall tree_front_ok fs -> NoDup (map tree_ident fs) -> Permutation fs fs' ->
+    good_key h -> label_of h <> [STAR] ->
+    no_ties re_match path m (a_rules (config re_ok (map OAdd fs)) h) ->
+    route_lookup re_match (run re_ok re_match (map OAdd fs)) h path m
+    = route_lookup re_match (run re_ok re_match (map OAdd fs')) h path m.
+  Proof.
+    intros OK ND PM G NS NT.
+    assert (OK' : Forall tree_front_ok fs').
+    { rewrite Forall_forall in *. intros x Hx. apply OK. eapply Permutation_in; [apply Permutation_sym; exact PM|exact Hx]. }
+    assert (ND' : NoDup (map tree_ident fs')) by (eapply Permutation_NoDup; [apply Permutation_map; exact PM|exact ND]).
+    destruct (adds_members fs empty_astate OK ND ltac:(intros ? ? ? _ _ [])) as (A1 & A2 & AM).
+    destruct (adds_members fs' empty_astate OK' ND' ltac:(intros ? ? ? _ _ [])) as (B1 & B2 & BM).
+    apply (order_independent_lemma re_ok re_match); auto using plain_adds.
+    - unfold config. rewrite A1, B1. reflexivity.
+    - unfold config. rewrite A2, B2. reflexivity.
+    - intros k e. unfold config. rewrite AM, BM. cbn [empty_astate s_tree In].
+      split; intros [[]|(fr & I & H)]; right; exists fr; (split; [|exact H]).
+      + eapply Permutation_in; eauto.
+      + eapply Permutation_in; [apply Permutation_sym; exact PM|exact I].
+  Qed.
+End Permute.
